@@ -220,6 +220,7 @@ def run(ctx):
 
     # ---------------- TS-expr
     rules.append(rule_expr_kind(ctx, m))
+    rules.append(rule_signed_read(ctx, m))
 
     # ---------------- PR-spanstart
     rules.append(rule_span_start(ctx, m))
@@ -847,4 +848,106 @@ def rule_span_start(ctx, m):
                     work.append((s_, False))
             r.ob(f.q, f.text(c)[:60], bad is None, "no span field is computed from `%s` after the scan" % cur["n"] if bad is None else
                  "`%s` records the operand's text from `%s`, which the scanner has already moved past the leading digits: \"12ab\" is kept as \"ab\"" % (f.text(bad)[:60], cur["n"]), f.loc(bad) if bad is not None else f.loc(c))
+    return r
+
+
+def rule_signed_read(ctx, m):
+    """SIGN-kind: the two whole-number kinds share their 64 bits (Number.Natural / Number.Integer); addition, subtraction,
+    multiplication and equality do not care which member is read, but an ordering comparison and a conversion to double do --
+    18446744073709551615 read as Integer is -1.  The arithmetic operators already keep them apart (double(Number.Natural) under
+    NaturalNumber, double(Number.Integer) under IntegerNumber).  Rule, over every member of QExpression: a read of
+    <x>.Value.Number.Integer that is an operand of < <= > >= or is converted to double sits where the kind of <x> cannot be
+    NaturalNumber: inside an arm of `switch (<x>.Type)` whose labels do not include NaturalNumber, or dominated by the true edge
+    of `<x>.Type == IntegerNumber` / `<x>.Type != NaturalNumber` (or the false edge of `<x>.Type == NaturalNumber`)."""
+    from qlib import dataflow
+    r = Rule("SIGN-kind", "Number.Integer is compared for order or converted to double only where the kind cannot be NaturalNumber", floor=8)
+    for f in m.functions:
+        if f.inst or not f.cfg or f.cls != "Qentem::QExpression":
+            continue
+        par = f.parents()
+        reads = []
+        for x in f.walk():
+            n = f.nodes[x]
+            if n["k"] != "MemberExpr" or n.get("n") != "Integer":
+                continue
+            # owner
+            b = x
+            while f.nodes[b]["k"] == "MemberExpr" and f.nodes[b].get("ch"):
+                b = f.strip(f.nodes[b]["ch"][0])
+            bn = f.nodes[b]
+            owner = "this" if bn["k"] == "CXXThisExpr" else bn.get("n") if bn["k"] == "DeclRefExpr" else None
+            if owner is None:
+                continue
+            # use
+            up, how, child = par.get(x), None, x
+            while up is not None:
+                un = f.nodes[up]
+                if un["k"] in ("ImplicitCastExpr", "CXXFunctionalCastExpr", "CStyleCastExpr", "CXXStaticCastExpr", "ParenExpr"):
+                    if un.get("ck") == "IntegralToFloating":
+                        how = "converted to double"
+                        break
+                    if un["k"] != "ParenExpr" and un.get("ck") not in ("LValueToRValue", "NoOp", None):
+                        break
+                    child, up = up, par.get(up)
+                    continue
+                if un["k"] == "BinaryOperator" and un["op"] in ("<", "<=", ">", ">=") and child in un["ch"]:
+                    other = un["ch"][1] if un["ch"][0] == child else un["ch"][0]
+                    # x.Integer < 0 asks for the sign: that IS a question about the Integer reading
+                    how = "compared with %s" % un["op"]
+                    if f.const_value(other) == 0:
+                        how = "sign test"
+                    break
+                break
+            if how:
+                reads.append((x, owner, how))
+        if not reads:
+            continue
+        ctx.note_fn(f)
+        type_text = lambda o: "Type" if o == "this" else o + ".Type"
+        for x, owner, how in reads:
+            ok, why = False, ""
+            # enclosing switch arms
+            up = par.get(x)
+            chain = []
+            while up is not None:
+                chain.append(up)
+                up = par.get(up)
+            for sw in [c_ for c_ in chain if f.nodes[c_]["k"] == "SwitchStmt"]:
+                if f.text(f.nodes[sw]["cond"]).replace("this.", "").replace("this->", "") != type_text(owner):
+                    continue
+                for labels, stmts in astq.switch_arms(f, sw):
+                    if any(x in set(f.walk(s_)) for s_ in stmts):
+                        names = [(l[0] or "").split("::")[-1] for l in labels]
+                        if names and "default" not in names and "NaturalNumber" not in names:
+                            ok, why = True, "inside case %s of switch (%s)" % ("/".join(names), type_text(owner))
+            if not ok:
+                for i in f.walk():
+                    cn = f.nodes[i]
+                    if cn["k"] != "BinaryOperator" or cn["op"] not in ("==", "!="):
+                        continue
+                    lt = f.text(cn["ch"][0]).replace("this.", "").replace("this->", "")
+                    if lt != type_text(owner):
+                        continue
+                    k = f.text(cn["ch"][1]).split("::")[-1]
+                    want = None
+                    if cn["op"] == "==" and k in ("IntegerNumber", "RealNumber"):
+                        want = True
+                    elif cn["op"] == "==" and k == "NaturalNumber":
+                        want = False
+                    elif cn["op"] == "!=" and k == "NaturalNumber":
+                        want = True
+                    if want is None:
+                        continue
+                    try:
+                        if dataflow.dominated_by_branch(f, x, i, want):
+                            ok, why = True, "under `%s` (%s edge)" % (f.text(i), "true" if want else "false")
+                            break
+                    except Exception:
+                        pass
+            if how == "sign test" and not ok:
+                # asking a natural for its sign is the same slip
+                pass
+            r.ob(f.sig, "%s.Value.Number.Integer %s" % (owner, how), ok, why if ok else
+                 "`%s` reads Number.Integer (%s) where %s may be a NaturalNumber: a natural of 2^63 or more is taken for a negative number "
+                 "(18446744073709551615 > 1 is false)" % (f.text(par.get(x, x))[:50], how, "this object" if owner == "this" else owner), f.loc(x))
     return r
